@@ -149,6 +149,15 @@ Section Byron.
     if ((0 <=? i)%Z && (i <=? b32_index_max)%Z)%bool then Ok (Z.lor i (2 ^ Z.of_N b32_hardened_bit))
     else Err (LibError Bip32PathError).
 
+  (* Bip44(CARDANO_BYRON_ICARUS / CARDANO_BYRON_LEDGER): m/44'/1815'/acc'/change/index with the
+     Khovratovich-Law derivator [kh_derive]; the address is the Icarus-style Byron address of the key and its
+     chain code *)
+  Definition icarus_wallet_address (kh_derive : node -> list Z -> res node) (master : node) (acc change idx : Z)
+      : res (list N) :=
+    let harden i := Z.lor i (2 ^ Z.of_N b32_hardened_bit) in
+    k <- kh_derive master [bip44_purpose; harden bip44_cardano_coin; harden acc; change; idx] ;;
+    encode_icarus (n_pub k) (n_cc k).
+
   Section Wallet.
     Variable derive : node -> list Z -> res node.     (* derivation with the Byron-legacy derivator *)
 
